@@ -14,15 +14,18 @@ Definition rem_chs (chs : list chunk) (opened : bool) : Z :=
   | c :: cs' => (if opened then 0 else ch_line c) + ch_size c + (if ch_ok c then 2 else 1) + chunks_len cs'
   end.
 
+Lemma rem_chs_closed' cs : rem_chs cs false = chunks_len cs.
+Proof. destruct cs as [|c cs]; cbn; unfold chunk_len; lia. Qed.
+
 Lemma cread_none : forall zl tl chs opened pos t want x st',
   cread None zl tl chs opened pos t want = (x, st') ->
   match x with
-  | RcOk => s_fixed st' = false /\ s_eof st' = false
+  | RcOk => s_fixed st' = false /\ s_eof st' = false /\ s_err st' = None
             /\ s_pos st' + rem_chs (s_chs st') (s_open st') = pos + rem_chs chs opened
             /\ forallb ch_ok (s_chs st') = forallb ch_ok chs
   | RcEof => s_pos st' = pos + rem_chs chs opened + zl + tl /\ forallb ch_ok chs = true
              /\ s_eof st' = true /\ s_fixed st' = false
-  | RcErr => forallb ch_ok chs = false
+  | RcErr => forallb ch_ok chs = false /\ s_fixed st' = false /\ s_eof st' = false /\ s_err st' = Some RcErr
   end.
 Proof.
   intros zl tl chs; induction chs as [|c chs IH]; intros opened pos t want x st' H.
@@ -38,45 +41,36 @@ Proof.
     + injection H as <- <-. cbn. repeat split; try reflexivity.
       subst p1; destruct opened, (ch_ok c); lia.
     + destruct (ch_ok c) eqn:Hok.
-      * destruct want as [k|].
+      * assert (Step : forall want' x st', cread None zl tl chs false (p1 + n + 2) (t + n) want' = (x, st') ->
+                  match x with
+                  | RcOk => s_fixed st' = false /\ s_eof st' = false /\ s_err st' = None
+                            /\ s_pos st' + rem_chs (s_chs st') (s_open st') = pos + rem_chs (c :: chs) opened
+                            /\ forallb ch_ok (s_chs st') = forallb ch_ok (c :: chs)
+                  | RcEof => s_pos st' = pos + rem_chs (c :: chs) opened + zl + tl /\ forallb ch_ok (c :: chs) = true
+                             /\ s_eof st' = true /\ s_fixed st' = false
+                  | RcErr => forallb ch_ok (c :: chs) = false /\ s_fixed st' = false /\ s_eof st' = false /\ s_err st' = Some RcErr
+                  end).
+        { intros w x0 st0 H0. apply IH in H0.
+          assert (Hn' : n = ch_size c) by (subst n; destruct want; lia).
+          assert (R : p1 + n + 2 + rem_chs chs false = pos + rem_chs (c :: chs) opened).
+          { cbn [rem_chs]. rewrite Hok, rem_chs_closed', Hn'. subst p1. destruct opened; lia. }
+          destruct x0.
+          - destruct H0 as (F & E & Er & P & B). repeat split; auto; [lia|]. cbn [forallb]. rewrite Hok. exact B.
+          - destruct H0 as (P & B & E & F). repeat split; auto; [lia|]. cbn [forallb]. rewrite Hok, B. reflexivity.
+          - destruct H0 as (B & F & E & Er). repeat split; auto. cbn [forallb]. rewrite B. apply andb_false_r. }
+        destruct want as [k|].
         -- destruct (k - n) as [|q|q] eqn:Hk.
            ++ injection H as <- <-. cbn. rewrite Hok. repeat split; try reflexivity.
-              destruct chs as [|c' chs']; cbn; unfold chunk_len; subst p1 n; destruct opened; try destruct (ch_ok c'); lia.
-           ++ apply IH in H. destruct x.
-              ** destruct H as (F & E & P & B). repeat split; auto.
-                 --- rewrite P. cbn [rem_chs]. rewrite Hok. subst p1 n.
-                     destruct chs as [|c' chs']; cbn; unfold chunk_len; destruct opened; try destruct (ch_ok c'); lia.
-                 --- cbn [forallb]. rewrite Hok. exact B.
-              ** destruct H as (P & B & E & F). repeat split; auto.
-                 --- rewrite P. cbn [rem_chs]. rewrite Hok. subst p1 n.
-                     destruct chs as [|c' chs']; cbn; unfold chunk_len; destruct opened; try destruct (ch_ok c'); lia.
-                 --- cbn [forallb]. rewrite Hok, B. reflexivity.
-              ** cbn [forallb]. rewrite H. apply andb_false_r.
-           ++ apply IH in H. destruct x.
-              ** destruct H as (F & E & P & B). repeat split; auto.
-                 --- rewrite P. cbn [rem_chs]. rewrite Hok. subst p1 n.
-                     destruct chs as [|c' chs']; cbn; unfold chunk_len; destruct opened; try destruct (ch_ok c'); lia.
-                 --- cbn [forallb]. rewrite Hok. exact B.
-              ** destruct H as (P & B & E & F). repeat split; auto.
-                 --- rewrite P. cbn [rem_chs]. rewrite Hok. subst p1 n.
-                     destruct chs as [|c' chs']; cbn; unfold chunk_len; destruct opened; try destruct (ch_ok c'); lia.
-                 --- cbn [forallb]. rewrite Hok, B. reflexivity.
-              ** cbn [forallb]. rewrite H. apply andb_false_r.
-        -- apply IH in H. destruct x.
-           ** destruct H as (F & E & P & B). repeat split; auto.
-              --- rewrite P. cbn [rem_chs]. rewrite Hok. subst p1 n.
-                  destruct chs as [|c' chs']; cbn; unfold chunk_len; destruct opened; try destruct (ch_ok c'); lia.
-              --- cbn [forallb]. rewrite Hok. exact B.
-           ** destruct H as (P & B & E & F). repeat split; auto.
-              --- rewrite P. cbn [rem_chs]. rewrite Hok. subst p1 n.
-                  destruct chs as [|c' chs']; cbn; unfold chunk_len; destruct opened; try destruct (ch_ok c'); lia.
-              --- cbn [forallb]. rewrite Hok, B. reflexivity.
-           ** cbn [forallb]. rewrite H. apply andb_false_r.
-      * injection H as <- <-. cbn [forallb]. rewrite Hok. reflexivity.
+              assert (Hn' : n = ch_size c) by (subst n; lia).
+              rewrite rem_chs_closed'. subst p1. destruct opened; lia.
+           ++ exact (Step _ _ _ H).
+           ++ exact (Step _ _ _ H).
+        -- exact (Step _ _ _ H).
+      * injection H as <- <-. cbn [forallb]. rewrite Hok. cbn. repeat split; reflexivity.
 Qed.
 
 Lemma rem_chs_closed cs : rem_chs cs false = chunks_len cs.
-Proof. destruct cs as [|c cs]; cbn; unfold chunk_len; lia. Qed.
+Proof. apply rem_chs_closed'. Qed.
 
 Lemma chunks_len_framed cs : forallb ch_ok cs = true ->
   chunks_len cs = fold_right (fun c a => chunk_framed c + a) 0 cs.
@@ -85,32 +79,40 @@ Proof.
   rewrite IH by assumption. unfold chunk_len, chunk_framed. rewrite H1. lia.
 Qed.
 
-(* invariant of a chunked requestStream over the complete body cs *)
+(* invariant of a chunked requestStream over the complete body cs: at its end, running, or broken *)
 Definition cinv (zl tl : Z) (cs : list chunk) (st : sst) : Prop :=
   s_fixed st = false /\
   ((s_eof st = true /\ s_pos st = chunks_len cs + zl + tl /\ forallb ch_ok cs = true) \/
-   (s_eof st = false /\ s_pos st + rem_chs (s_chs st) (s_open st) = chunks_len cs
-    /\ forallb ch_ok (s_chs st) = forallb ch_ok cs)).
+   (s_eof st = false /\ s_err st = None /\ s_pos st + rem_chs (s_chs st) (s_open st) = chunks_len cs
+    /\ forallb ch_ok (s_chs st) = forallb ch_ok cs) \/
+   (s_eof st = false /\ s_err st = Some RcErr)).
 
 Lemma sread_cinv zl tl cs st want x st' :
-  cinv zl tl cs st -> sread None zl tl st want = (x, st') -> x <> RcErr ->
+  cinv zl tl cs st -> sread None zl tl st want = (x, st') ->
   cinv zl tl cs st' /\ (x = RcEof -> s_eof st' = true).
 Proof.
-  intros (F & I) H Hx. unfold sread in H.
+  intros (F & I) H. unfold sread in H.
   assert (Hgo : (if s_fixed st then fread None st want
                  else if s_eof st then (RcEof, st)
-                 else cread None zl tl (s_chs st) (s_open st) (s_pos st) (s_t st) want) = (x, st')
+                 else match s_err st with
+                      | Some e => (e, st)
+                      | None => cread None zl tl (s_chs st) (s_open st) (s_pos st) (s_t st) want
+                      end) = (x, st')
                 \/ (x = RcOk /\ st' = st)).
   { destruct want as [[|q|q]|]; auto. injection H as <- <-. auto. }
   clear H. destruct Hgo as [H|[-> ->]].
   2:{ split; [split; assumption | discriminate]. }
-  rewrite F in H. destruct I as [(E & P & B)|(E & P & B)]; rewrite E in H.
+  rewrite F in H. destruct I as [(E & P & B)|[(E & Er & P & B)|(E & Er)]]; rewrite E in H.
   - injection H as <- <-. split; [split; auto | auto].
-  - apply cread_none in H. destruct x; [| |congruence].
-    + destruct H as (F' & E' & P' & B'). split; [|discriminate].
-      split; [assumption|]. right. repeat split; [assumption|lia|congruence].
+  - rewrite Er in H. apply cread_none in H. destruct x.
+    + destruct H as (F' & E' & Er' & P' & B'). split; [|discriminate].
+      split; [assumption|]. right. left. repeat split; [assumption|assumption|lia|congruence].
     + destruct H as (P' & B' & E' & F'). split; [|auto].
       split; [assumption|]. left. repeat split; [assumption|lia|congruence].
+    + destruct H as (B' & F' & E' & Er'). split; [|discriminate].
+      split; [assumption|]. right. right. split; assumption.
+  - rewrite Er in H. injection H as <- <-. split; [|discriminate].
+    split; [assumption|]. right. right. split; assumption.
 Qed.
 
 (* invariant of a fixed-length requestStream *)
@@ -135,7 +137,7 @@ Proof.
     assert (Htg : target <= n) by (subst target; destruct want; lia).
     assert (Ht' : s_t st <= t' <= n) by (subst t'; lia).
     replace (t' <? target) with false in H by (subst t'; lia).
-    assert (Inv : finv n (mkSst true n (s_pre st) [] false (Z.max (s_pos st) t') t' false)).
+    assert (Inv : finv n (mkSst true n (s_pre st) [] false (Z.max (s_pos st) t') t' false None)).
     { repeat split; cbn; lia. }
     destruct want as [k|].
     + destruct (target =? s_t st + k) eqn:Ek; injection H as <- <-.
@@ -148,8 +150,6 @@ Qed.
 (* the handler phase and the drain                                                      *)
 (* ------------------------------------------------------------------------------------ *)
 
-Definition kept (r : req) : bool := match r_fin r with FinDetach | FinTimeout => false | _ => true end.
-
 Definition sinv (r : req) (st : sst) : Prop :=
   match r_fr r with
   | FNone => False
@@ -159,27 +159,37 @@ Definition sinv (r : req) (st : sst) : Prop :=
 
 Lemma sread_sinv r st want x st' :
   r_lim r = None -> sinv r st ->
-  sread (r_lim r) (zl_of (r_fr r)) (tl_of (r_fr r)) st want = (x, st') -> x <> RcErr ->
+  sread (r_lim r) (zl_of (r_fr r)) (tl_of (r_fr r)) st want = (x, st') ->
   sinv r st' /\ (x = RcEof -> framed_len (r_fr r) = Some (s_pos st')).
 Proof.
-  intros L I H Hx. rewrite L in H. unfold sinv in *. destruct (r_fr r) as [|n|cs zl tl]; [contradiction| |].
+  intros L I H. rewrite L in H. unfold sinv in *. destruct (r_fr r) as [|n|cs zl tl]; [contradiction| |].
   - cbn in H. apply (sread_finv _ _ n) in H; [|assumption]. destruct H as (I' & _ & E).
     split; [assumption|]. intros ->. cbn. rewrite E; reflexivity.
-  - cbn in H. pose proof (sread_cinv _ _ _ _ _ _ _ I H Hx) as (I' & E).
+  - cbn in H. pose proof (sread_cinv _ _ _ _ _ _ _ I H) as (I' & E).
     split; [assumption|]. intros ->. specialize (E eq_refl).
-    destruct I' as (_ & [(_ & P & B)|(E' & _)]); [|congruence].
+    destruct I' as (_ & [(_ & P & B)|[(E' & _)|(E' & _)]]); [|congruence|congruence].
+    cbn. rewrite B, P. rewrite chunks_len_framed by assumption. reflexivity.
+Qed.
+
+(* a drained stream is at the end of a framed body *)
+Lemma drained_end r st : sinv r st -> drained st = true -> framed_len (r_fr r) = Some (s_pos st).
+Proof.
+  unfold sinv, drained. destruct (r_fr r) as [|n|cs zl tl]; [contradiction| |].
+  - intros (F & C & P & Hp & Ht). rewrite F, C. intros E. cbn. f_equal. lia.
+  - intros (F & I). rewrite F. intros E.
+    destruct I as [(_ & P & B)|[(E' & _)|(E' & _)]]; [|congruence|congruence].
     cbn. rewrite B, P. rewrite chunks_len_framed by assumption. reflexivity.
 Qed.
 
 Lemma run_reads_sinv r st :
-  r_lim r = None -> sinv r st -> raw_read_rc r st <> RcErr -> sinv r (snd (run_reads r st)).
+  r_lim r = None -> sinv r st -> sinv r (snd (run_reads r st)).
 Proof.
-  intros L I Hx. unfold run_reads, raw_read_rc in *. destruct (r_rd r) as [|k|].
+  intros L I. unfold run_reads in *. destruct (r_rd r) as [|k|].
   - exact I.
   - destruct (sread _ _ _ st (Some k)) as [x st'] eqn:H. cbn [fst snd] in *.
-    exact (proj1 (sread_sinv _ _ _ _ _ L I H Hx)).
+    exact (proj1 (sread_sinv _ _ _ _ _ L I H)).
   - destruct (sread _ _ _ st None) as [x st'] eqn:H. cbn [fst snd] in *.
-    exact (proj1 (sread_sinv _ _ _ _ _ L I H Hx)).
+    exact (proj1 (sread_sinv _ _ _ _ _ L I H)).
 Qed.
 
 Lemma drain_end c r st st' :
@@ -188,23 +198,29 @@ Proof.
   intros L I H. unfold drain in H.
   destruct (sread _ _ _ st (Some (c_max c + 1))) as [x st2] eqn:Hs.
   destruct x; try discriminate. injection H as <-.
-  refine (proj2 (sread_sinv _ _ _ _ _ L I Hs _) eq_refl). discriminate.
+  exact (proj2 (sread_sinv _ _ _ _ _ L I Hs) eq_refl).
 Qed.
 
+(* whatever the handler does with the stream (reads, detaches it, times out, hijacks, asks for close):
+   a kept-alive connection continues at the end of the framed body *)
 Lemma after_handler_stream c r pos st evs off :
-  r_lim r = None -> sinv r st -> kept r = true -> raw_read_rc r st <> RcErr ->
+  r_lim r = None -> sinv r st ->
   after_handler c r pos (Some st) = (evs, Some off) -> framed_len (r_fr r) = Some off.
 Proof.
-  intros L I K Hx H. unfold after_handler in H.
-  pose proof (run_reads_sinv _ _ L I Hx) as I2.
+  intros L I H. unfold after_handler in H.
+  pose proof (run_reads_sinv _ _ L I) as I2.
   destruct (run_reads r st) as [[n x] st2] eqn:Hr. cbn [snd] in I2.
-  unfold kept in K.
-  destruct (r_fin r); try discriminate.
+  destruct (r_fin r); cbn [andb negb orb] in H.
   - (* FinNone *)
     destruct (drain c r st2) as [cl st3] eqn:Hd.
     destruct ((c_nokeepalive c || r_close r || cl) || false) eqn:Hc; [discriminate|].
     injection H as _ <-. destruct cl; [rewrite orb_true_r in Hc; discriminate|].
     exact (drain_end _ _ _ _ L I2 Hd).
+  - (* FinDetach *)
+    destruct (negb (drained st2)) eqn:Hu; cbn in H; [discriminate|].
+    destruct ((c_nokeepalive c || r_close r) || false); [discriminate|].
+    injection H as _ <-. apply drained_end; [assumption|]. destruct (drained st2); [reflexivity|discriminate].
+  - (* FinTimeout *) discriminate.
   - (* FinHijack *)
     destruct ((c_nokeepalive c || r_close r) || false); discriminate.
   - (* FinConnClose *)
@@ -259,7 +275,7 @@ Proof.
     + destruct (if (0 <? n) && c_preparse c then r_mp r else None) as [ok|].
       * unfold readMultipart in H. destruct ok; [|discriminate]. injection H as <- <-. cbn. f_equal; try lia.
       * cbn in H. injection H as <- <-. unfold finv, prefetchLimit. cbn. repeat split; lia.
-    + injection H as <- <-. unfold cinv. cbn. split; [reflexivity|]. right.
+    + injection H as <- <-. unfold cinv. cbn. split; [reflexivity|]. right. left.
       rewrite rem_chs_closed. repeat split; lia.
   - unfold continueReadBody in H. rewrite L in H. unfold ready_ok.
     destruct (r_fr r) as [|n|cs zl tl].
@@ -288,25 +304,16 @@ Proof.
     injection H as _ <- <-. exact (read_body_ready _ _ _ _ _ Wc Wr L Hb).
 Qed.
 
-(* the exact condition under which the iteration is safe: when the handler got a live request
-   stream, it leaves it attached (no CloseBodyStream/ResetBody/..., no TimeoutError) and none of
-   its Read calls returned an error other than io.EOF *)
-Definition safe (c : cfg) (r : req) : Prop :=
-  match before_handler c r with
-  | PRun _ _ (Some st) => kept r = true /\ raw_read_rc r st <> RcErr
-  | _ => True
-  end.
-
 Theorem next_starts_at_body_end c r evs off :
-  wf_cfg c -> wf_req r -> r_lim r = None -> safe c r ->
+  wf_cfg c -> wf_req r -> r_lim r = None ->
   serve_one c r = (evs, Some off) -> framed_len (r_fr r) = Some off.
 Proof.
-  intros Wc Wr L S H. unfold serve_one in H. unfold safe in S.
+  intros Wc Wr L H. unfold serve_one in H.
   destruct (before_handler c r) as [e|e pos st] eqn:Hb; [discriminate|].
   pose proof (before_handler_ready _ _ _ _ _ Wc Wr L Hb) as R.
   destruct (after_handler c r pos st) as [e2 nxt] eqn:Ha. injection H as _ ->.
   destruct st as [s|].
-  - destruct S as [K X]. exact (after_handler_stream _ _ _ _ _ _ L R K X Ha).
+  - exact (after_handler_stream _ _ _ _ _ _ L R Ha).
   - apply after_handler_plain in Ha as ->. exact R.
 Qed.
 
@@ -352,7 +359,7 @@ Proof.
 Qed.
 
 Theorem body_bytes_never_parsed c : wf_cfg c -> forall rs base,
-  Forall wf_req rs -> Forall (fun r => r_lim r = None) rs -> Forall (safe c) rs ->
+  Forall wf_req rs -> Forall (fun r => r_lim r = None) rs ->
   forall e, In e (serve c rs base) ->
     match e with
     | EParse off => In off (boundaries base rs)
@@ -360,9 +367,9 @@ Theorem body_bytes_never_parsed c : wf_cfg c -> forall rs base,
     | _ => True
     end.
 Proof.
-  intros Wc rs; induction rs as [|r rest IH]; intros base W L S e He.
+  intros Wc rs; induction rs as [|r rest IH]; intros base W L e He.
   - cbn in He. destruct He as [<-|[]]. exact I.
-  - inversion W as [|? ? Wr Wrest]; inversion L as [|? ? Lr Lrest]; inversion S as [|? ? Sr Srest]; subst.
+  - inversion W as [|? ? Wr Wrest]; inversion L as [|? ? Lr Lrest]; subst.
     cbn [serve] in He. destruct He as [<-|He]; [cbn; auto|].
     destruct (serve_one c r) as [evs nxt] eqn:H1. apply in_app_or in He as [He|He].
     + (* events of the iteration itself *)
@@ -390,10 +397,10 @@ Proof.
            end; injection Ha as <- _; cbn in He;
            repeat (destruct He as [<-|He]; [exact I|]); try contradiction.
     + destruct nxt as [off|].
-      * pose proof (next_starts_at_body_end _ _ _ _ Wc Wr Lr Sr H1) as F.
+      * pose proof (next_starts_at_body_end _ _ _ _ Wc Wr Lr H1) as F.
         rewrite Lr in He. cbn [at_end] in He. unfold truncated in He. rewrite Lr in He. cbn [negb andb] in He.
         rewrite (framed_wire _ _ F), Z.eqb_refl in He.
-        specialize (IH _ Wrest Lrest Srest _ He).
+        specialize (IH _ Wrest Lrest _ He).
         destruct e; auto. cbn [boundaries]. right.
         unfold req_len. rewrite F. replace (base + (r_head r + off)) with (base + r_head r + off) by lia. exact IH.
       * destruct He as [<-|[]]. exact I.
@@ -574,12 +581,12 @@ Qed.
 Definition all_visible (l : list event) : Prop := filter visible l = l.
 
 Theorem model_trace_judged c : wf_cfg c -> forall rs base,
-  Forall wf_req rs -> Forall (fun r => r_lim r = None) rs -> Forall (safe c) rs ->
+  Forall wf_req rs -> Forall (fun r => r_lim r = None) rs ->
   judge c rs (filter visible (serve c rs base)) = true /\ nohj (filter visible (serve c rs base)).
 Proof.
-  intros Wc rs; induction rs as [|r rest IH]; intros base W L S.
+  intros Wc rs; induction rs as [|r rest IH]; intros base W L.
   - cbn. auto.
-  - inversion W as [|? ? Wr Wrest]; inversion L as [|? ? Lr Lrest]; inversion S as [|? ? Sr Srest]; subst.
+  - inversion W as [|? ? Wr Wrest]; inversion L as [|? ? Lr Lrest]; subst.
     cbn [serve filter visible].
     pose proof (serve_one_shape c r Wc Wr Lr) as Sh.
     pose proof (next_starts_at_body_end c r) as T1.
@@ -596,10 +603,10 @@ Proof.
                     (exists off, nxt = Some off /\ well_framed r = true
                                  /\ judge c rest (filter visible tail) = true /\ nohj (filter visible tail))).
     { subst tail. destruct nxt as [off|]; [right|left; auto].
-      specialize (T1 evs off Wc Wr Lr Sr eq_refl).
+      specialize (T1 evs off Wc Wr Lr eq_refl).
       exists off. split; [reflexivity|]. unfold well_framed. rewrite T1, Lr. split; [reflexivity|].
       cbn [at_end]. unfold truncated. rewrite Lr. cbn [negb andb].
-      rewrite (framed_wire _ _ T1), Z.eqb_refl. exact (IH _ Wrest Lrest Srest). }
+      rewrite (framed_wire _ _ T1), Z.eqb_refl. exact (IH _ Wrest Lrest). }
     clearbody tail.
     inversion Sh as [s M E1 E2 | E1 E2 | Ex E1 E2 | s Ex M E1 E2 | pre n x s cl hj nxt' Hp Hr Hh E1 E2]; subst.
     + destruct Htail as [[_ ->] | (off & Hn & _)]; [|discriminate]. cbn. rewrite M. auto.
@@ -622,44 +629,7 @@ Proof.
 Qed.
 
 (* ------------------------------------------------------------------------------------ *)
-(* the guard in terms of the inputs                                                     *)
-(* ------------------------------------------------------------------------------------ *)
-
-Lemma sread_no_err r st want :
-  r_lim r = None -> sinv r st -> framed_len (r_fr r) <> None ->
-  fst (sread (r_lim r) (zl_of (r_fr r)) (tl_of (r_fr r)) st want) <> RcErr.
-Proof.
-  intros L I Fr. rewrite L. unfold sinv in I. destruct (r_fr r) as [|n|cs zl tl]; [contradiction| |].
-  - destruct (sread None (zl_of (FFixed n)) (tl_of (FFixed n)) st want) as [x st'] eqn:H.
-    apply (sread_finv _ _ n) in H; [|assumption]. cbn. tauto.
-  - cbn [zl_of tl_of]. cbn in Fr. destruct (forallb ch_ok cs) eqn:B; [|congruence].
-    unfold sread. destruct I as (F & I).
-    assert (G : fst (if s_fixed st then fread None st want
-                     else if s_eof st then (RcEof, st)
-                     else cread None zl tl (s_chs st) (s_open st) (s_pos st) (s_t st) want) <> RcErr).
-    { rewrite F. destruct I as [(E & _)|(E & _ & B')]; rewrite E; [cbn; discriminate|].
-      destruct (cread None zl tl (s_chs st) (s_open st) (s_pos st) (s_t st) want) as [x st'] eqn:H.
-      apply cread_none in H. cbn. destruct x; try discriminate. congruence. }
-    destruct want as [[|q|q]|]; auto. cbn. discriminate.
-Qed.
-
-(* every reading behaviour is safe on a body that has an end, and not reading is safe on any
-   body, as long as the handler leaves the stream attached *)
-Lemma safe_of_inputs c r :
-  wf_cfg c -> wf_req r -> r_lim r = None -> kept r = true ->
-  (framed_len (r_fr r) <> None \/ r_rd r = RNone) -> safe c r.
-Proof.
-  intros Wc Wr L K H. unfold safe.
-  destruct (before_handler c r) as [e|e pos [st|]] eqn:Hb; auto.
-  split; [assumption|].
-  pose proof (before_handler_ready _ _ _ _ _ Wc Wr L Hb) as I. cbn in I.
-  unfold raw_read_rc. destruct H as [H|H].
-  - destruct (r_rd r); [discriminate| |]; apply sread_no_err; assumption.
-  - rewrite H. discriminate.
-Qed.
-
-(* ------------------------------------------------------------------------------------ *)
-(* the findings: witnesses outside the guard                                            *)
+(* non-vacuity: the three behaviours that used to desynchronise the connection          *)
 (* ------------------------------------------------------------------------------------ *)
 
 Definition wit_cfg : cfg := mkCfg true 20000 false true false false false.
@@ -667,28 +637,11 @@ Definition wit_detach : req := mkReq 1 58 false false false (FFixed 10000) None 
 Definition wit_timeout : req := mkReq 1 58 false false false (FFixed 10000) None None 0 false RNone FinTimeout.
 Definition wit_sticky : req :=
   mkReq 1 58 false false false (FChunked [mkChunk 3 5 false; mkChunk 4 64 true] 3 2) None None 0 false REOF FinNone.
+Definition wit_detach_read : req := mkReq 1 58 false false false (FFixed 10000) None None 0 false REOF FinDetach.
 
-Lemma refuted_detach : snd (serve_one wit_cfg wit_detach) = Some 8192 /\ framed_len (r_fr wit_detach) = Some 10000.
+(* detaching an unread stream, timing out, reading into a broken chunk: the connection is closed;
+   detaching after reading everything: the connection goes on at the end of the body *)
+Lemma former_findings_close :
+  snd (serve_one wit_cfg wit_detach) = None /\ snd (serve_one wit_cfg wit_timeout) = None /\
+  snd (serve_one wit_cfg wit_sticky) = None /\ snd (serve_one wit_cfg wit_detach_read) = Some 10000.
 Proof. vm_compute. auto. Qed.
-Lemma refuted_timeout : snd (serve_one wit_cfg wit_timeout) = Some 8192 /\ framed_len (r_fr wit_timeout) = Some 10000.
-Proof. vm_compute. auto. Qed.
-Lemma refuted_sticky : snd (serve_one wit_cfg wit_sticky) = Some 84 /\ framed_len (r_fr wit_sticky) = None.
-Proof. vm_compute. auto. Qed.
-
-Theorem next_starts_at_body_end_refuted :
-  exists c r evs off, wf_cfg c /\ wf_req r /\ r_lim r = None /\
-    serve_one c r = (evs, Some off) /\ framed_len (r_fr r) <> Some off.
-Proof.
-  exists wit_cfg, wit_detach. eexists. exists 8192.
-  split; [unfold wf_cfg; cbn; lia|]. split; [cbn; lia|]. split; [reflexivity|].
-  split; [vm_compute; reflexivity|]. cbn. discriminate.
-Qed.
-
-Theorem body_bytes_never_parsed_refuted :
-  exists c rs id rel off, Forall wf_req rs /\ Forall (fun r => r_lim r = None) rs /\
-    In (EDesync id rel off) (serve c rs 0) /\ inside_some_message 0 rs off = true.
-Proof.
-  exists wit_cfg, [wit_timeout; mkReq 2 29 true false false FNone None None 0 false RNone FinNone], 1, 8192, (58 + 8192).
-  split; [repeat constructor; cbn; lia|]. split; [repeat constructor|].
-  split; vm_compute; auto.
-Qed.
